@@ -74,6 +74,7 @@ def c05(rec, tier):
     f6_kinds.run(rec, F)
     f7_roots.run(rec, F)
     f4_gc.gc_phase_order(rec, F)
+    f4_gc.no_mark_after_evict(rec, F)
     f4_gc.alloc_rooting(rec, F)
     f8_hazards.run(rec, F)
     SF = STRESS(rec)
@@ -94,6 +95,7 @@ def c09(rec, tier):
     F = D(rec)
     f4_gc.intern_funnel(rec, F)
     f4_gc.gc_phase_order(rec, F)
+    f4_gc.no_mark_after_evict(rec, F)
     # identity = content only while every holder of a string keeps it marked: containers trace keys too
     f5_trace.run_generic_params(rec, F)
     # every field that holds strings (names, keys, paths) is traced: a string freed while a table still uses it as a key
@@ -114,6 +116,7 @@ def c20(rec, tier):
     f4_gc.sweep_siblings(rec, F)
     f4_gc.alloc_rooting(rec, F)
     f4_gc.gc_phase_order(rec, F)
+    f4_gc.no_mark_after_evict(rec, F)
     f7_roots.run(rec, F)
     f4_gc.intern_funnel(rec, F)
     SF = STRESS(rec)
@@ -144,6 +147,7 @@ def c02(rec, tier):
     S = SY(rec)
     f2_emit.run_twins(rec, S)
     f2_emit.run_declare_define(rec, S)
+    f2_emit.run_value_between_declare_define(rec, S)
     f2_visit.run(rec, S)
     f2_visit.run_order(rec, S)
     f4_obj.run_closures(rec, F)
@@ -174,6 +178,7 @@ def c04(rec, tier):
     f2_emit.run_handlers(rec, S, F)
     f2_emit.run_scoped_state(rec, S)
     f2_emit.run_declare_define(rec, S)
+    f2_emit.run_value_between_declare_define(rec, S)
     f2_emit.run_depth_provenance(rec, F)
     f3_flow.run(rec, F, S)
     f4_exc.run(rec, F)
@@ -216,6 +221,7 @@ def c06(rec, tier):
     f1_isa.run_all(rec, F)
     f2_emit.run_slots(rec, S)
     f2_emit.run_declare_define(rec, S)
+    f2_emit.run_value_between_declare_define(rec, S)
     f2_emit.run_depth_provenance(rec, F)
     f3_flow.run(rec, F, S)
     # handlers on the fiber = try blocks the running code is inside of: nesting records, depths, dead handlers
